@@ -56,6 +56,10 @@ type World struct {
 	// BackendWindow > 0: the gateway's writes to a remote desktop host block once that many bytes are unread (a
 	// host that stopped reading)
 	BackendWindow int
+	// Flags: named events the client scripts of a scenario signal to and wait for (wait:<name> / signal:<name>)
+	Flags map[string]bool
+	// Parties / Arrived: the "barrier" script op waits until the scripts of all tunnels of the scenario reached it
+	Parties, Arrived int
 }
 
 // NewWorld installs a fresh network.
